@@ -14,6 +14,7 @@ import (
 	"net"
 	"net/netip"
 	"sync"
+	"sync/atomic"
 	"testing"
 	"time"
 
@@ -38,6 +39,8 @@ type c14Conn struct {
 	written   [][]byte
 	local     net.Addr
 	remote    net.Addr
+	// afterWrite (if set) runs after every Write call, outside the lock: another writer gets its turn there
+	afterWrite func(nthWrite int)
 }
 
 func newC14Conn(stream []byte, chunks []int, eofAtEnd bool) *c14Conn {
@@ -106,6 +109,11 @@ func (c *c14Conn) Write(b []byte) (int, error) {
 	}
 	c.written = append(c.written, append([]byte{}, b...))
 	c.cond.Broadcast()
+	if hook, n := c.afterWrite, len(c.written); hook != nil {
+		c.mu.Unlock()
+		hook(n)
+		c.mu.Lock()
+	}
 
 	return len(b), nil
 }
@@ -858,6 +866,286 @@ func TestVerif_C14_OversizeInbound(t *testing.T) {
 		cancel()
 		if err == nil {
 			st.Fail(rt, "C14/oversize-inbound/fabricated-packet", "%s: %d more bytes delivered after the stream error", desc, n)
+		}
+	})
+}
+
+// ---- several TCP connections under one tcpPacketConn, with the checker owning the interleaving of their segments
+
+type c14GatedConn struct {
+	mu      sync.Mutex
+	cond    *sync.Cond
+	avail   []byte
+	waiting int // times the reader parked with nothing available (monotonic)
+	closed  bool
+	local   net.Addr
+	remote  net.Addr
+}
+
+func newC14GatedConn(i int) *c14GatedConn {
+	c := &c14GatedConn{
+		local:  &net.TCPAddr{IP: net.IPv4(10, 0, 0, 1), Port: 1000},
+		remote: &net.TCPAddr{IP: net.IPv4(10, 0, 0, byte(2+i)), Port: 2000 + i},
+	}
+	c.cond = sync.NewCond(&c.mu)
+
+	return c
+}
+
+func (c *c14GatedConn) Read(b []byte) (int, error) {
+	c.mu.Lock()
+	defer c.mu.Unlock()
+	for len(c.avail) == 0 && !c.closed {
+		c.waiting++
+		c.cond.Broadcast()
+		c.cond.Wait()
+	}
+	if len(c.avail) == 0 {
+		return 0, net.ErrClosed
+	}
+	n := copy(b, c.avail)
+	c.avail = c.avail[n:]
+
+	return n, nil
+}
+
+// grant hands the next segment to the connection's reader and returns once it has been consumed entirely and
+// the reader is parked again (false: not within 20 s).
+func (c *c14GatedConn) grant(seg []byte) bool {
+	c.mu.Lock()
+	defer c.mu.Unlock()
+	w := c.waiting
+	c.avail = append(c.avail, seg...)
+	c.cond.Broadcast()
+	deadline := time.Now().Add(20 * time.Second)
+	timer := time.AfterFunc(20*time.Second, func() { c.mu.Lock(); c.cond.Broadcast(); c.mu.Unlock() })
+	defer timer.Stop()
+	for !(len(c.avail) == 0 && c.waiting > w) && !c.closed {
+		if time.Now().After(deadline) {
+			return false
+		}
+		c.cond.Wait()
+	}
+
+	return true
+}
+
+func (c *c14GatedConn) Write(b []byte) (int, error) { return len(b), nil }
+func (c *c14GatedConn) Close() error {
+	c.mu.Lock()
+	c.closed = true
+	c.cond.Broadcast()
+	c.mu.Unlock()
+
+	return nil
+}
+func (c *c14GatedConn) LocalAddr() net.Addr              { return c.local }
+func (c *c14GatedConn) RemoteAddr() net.Addr             { return c.remote }
+func (c *c14GatedConn) SetDeadline(time.Time) error      { return nil }
+func (c *c14GatedConn) SetReadDeadline(time.Time) error  { return nil }
+func (c *c14GatedConn) SetWriteDeadline(time.Time) error { return nil }
+
+func TestVerif_C14_TCPPacketConnMulti(t *testing.T) {
+	st := vfNewStats(t)
+	logger := logging.NewDefaultLoggerFactory().NewLogger("verif")
+	small := rapid.Custom(func(t *rapid.T) []byte {
+		n := rapid.SampledFrom([]int{1, 2, 3, 20, 255, 256, 257, 1000, 1200, 4000, 8190}).Draw(t, "len")
+		fill := rapid.Byte().Draw(t, "fill")
+
+		return bytes.Repeat([]byte{fill}, n)
+	})
+	rapid.Check(t, func(rt *rapid.T) {
+		nConns := rapid.IntRange(2, 3).Draw(rt, "connections")
+		pkts := make([][][]byte, nConns)
+		segs := make([][][]byte, nConns) // per connection: its byte stream cut into segments
+		total := 0
+		for i := 0; i < nConns; i++ {
+			pkts[i] = rapid.SliceOfN(small, 1, 4).Draw(rt, "packets")
+			total += len(pkts[i])
+			stream := c14Frame(pkts[i])
+			for len(stream) > 0 {
+				n := rapid.SampledFrom([]int{1, 2, 3, 100, 500, 1448, 9000}).Draw(rt, "segment")
+				if n > len(stream) {
+					n = len(stream)
+				}
+				segs[i] = append(segs[i], stream[:n])
+				stream = stream[n:]
+			}
+		}
+		pc := newTCPPacketConn(tcpPacketParams{ReadBuffer: 32, LocalAddr: &net.TCPAddr{IP: net.IPv4(10, 0, 0, 1), Port: 1000}, Logger: logger})
+		defer pc.Close() //nolint:errcheck
+		conns := make([]*c14GatedConn, nConns)
+		for i := range conns {
+			conns[i] = newC14GatedConn(i)
+			if err := pc.AddConn(conns[i], nil); err != nil {
+				rt.Fatalf("harness: AddConn: %v", err)
+			}
+		}
+		next := make([]int, nConns)
+		switches, order := 0, []int{}
+		for {
+			var live []int
+			for i := range segs {
+				if next[i] < len(segs[i]) {
+					live = append(live, i)
+				}
+			}
+			if len(live) == 0 {
+				break
+			}
+			i := live[rapid.IntRange(0, len(live)-1).Draw(rt, "turn")]
+			if len(order) > 0 && order[len(order)-1] != i {
+				switches++
+			}
+			order = append(order, i)
+			if !conns[i].grant(segs[i][next[i]]) {
+				st.Inconclusive()
+				rt.Fatalf("VERIF-INCONCLUSIVE: segment not consumed within 20 s")
+			}
+			next[i]++
+		}
+		got := map[string][][]byte{}
+		for k := 0; k < total; k++ {
+			buf := make([]byte, receiveMTU)
+			ctx, cancel := context.WithTimeout(context.Background(), 20*time.Second)
+			n, addr, err := pc.readFromContext(ctx, buf)
+			cancel()
+			if errors.Is(err, context.DeadlineExceeded) {
+				st.Fail(rt, "C14/multi/packet-missing", "only %d of %d packets were delivered (order of segments by connection: %v)", k, total, order)
+			}
+			if err != nil {
+				st.Fail(rt, "C14/multi/read-error", "packet %d: %v", k, err)
+			}
+			got[addr.String()] = append(got[addr.String()], append([]byte{}, buf[:n]...))
+		}
+		for i, c := range conns {
+			g := got[c.remote.String()]
+			if len(g) != len(pkts[i]) {
+				st.Fail(rt, "C14/multi/packet-count", "connection %d: %d packets delivered, %d sent (segment order %v)", i, len(g), len(pkts[i]), order)
+			}
+			for k := range g {
+				if !bytes.Equal(g[k], pkts[i][k]) {
+					st.Fail(rt, "C14/multi/packet-corrupted", "connection %d packet %d: got %d bytes (first %x…), want %d bytes of %x (segment order %v)",
+						i, k, len(g[k]), g[k][:min(len(g[k]), 8)], len(pkts[i][k]), pkts[i][k][0], order)
+				}
+			}
+		}
+		st.Record(vfHash(order, total), switches >= 2, fmt.Sprintf("connections:%d", nConns), fmt.Sprintf("interleaved:%v", switches >= 2))
+		if switches >= 2 && st.WantSample() {
+			st.Sample(func() string { return fmt.Sprintf("%d connections, %d packets, segment order by connection %v", nConns, total, order) })
+		}
+	})
+}
+
+
+// TestVerif_C14_ConcurrentWriters: several goroutines WriteTo the same peer through one tcpPacketConn, and the
+// checker additionally lets a complete second WriteTo happen between two drawn Write calls on the TCP
+// connection (the interleaving a preempted writer would see).  The wire must still be a sequence of whole
+// frames, one per accepted packet.
+func TestVerif_C14_ConcurrentWriters(t *testing.T) {
+	st := vfNewStats(t)
+	logger := logging.NewDefaultLoggerFactory().NewLogger("verif")
+	rapid.Check(t, func(rt *rapid.T) {
+		nWriters := rapid.IntRange(1, 4).Draw(rt, "writers")
+		per := rapid.IntRange(1, 6).Draw(rt, "packetsPerWriter")
+		writeBuf := rapid.SampledFrom([]int{0, 0, 1 << 20}).Draw(rt, "writeBuffer")
+		intrudeAt := rapid.IntRange(1, 6).Draw(rt, "intrudeAfterWrite")
+		conn := newC14Conn(nil, nil, false)
+		pc := newTCPPacketConn(tcpPacketParams{ReadBuffer: 8, LocalAddr: conn.local, Logger: logger, WriteBuffer: writeBuf})
+		defer pc.Close() //nolint:errcheck
+		if err := pc.AddConn(conn, nil); err != nil {
+			rt.Fatalf("harness: AddConn: %v", err)
+		}
+		intruder := bytes.Repeat([]byte{0xEE}, rapid.SampledFrom([]int{1, 7, 300}).Draw(rt, "intruderLen"))
+		var started atomic.Bool
+		intruderDone := make(chan error, 1)
+		between := false // the second WriteTo completed while the first writer was inside its Write call
+		conn.afterWrite = func(n int) {
+			if n < intrudeAt || !started.CompareAndSwap(false, true) {
+				return
+			}
+			done := make(chan struct{})
+			go func() {
+				_, err := pc.WriteTo(intruder, conn.remote)
+				intruderDone <- err
+				close(done)
+			}()
+			select {
+			case <-done:
+				between = true
+			case <-time.After(200 * time.Millisecond): // the writer holds a lock across its Write calls: no interleaving possible
+			}
+		}
+		var wg sync.WaitGroup
+		var sent [][]byte
+		var smu sync.Mutex
+		for w := 0; w < nWriters; w++ {
+			wg.Add(1)
+			go func(w int) {
+				defer wg.Done()
+				for k := 0; k < per; k++ {
+					p := bytes.Repeat([]byte{byte(16*w + k + 1)}, 3+17*k+w)
+					if n, err := pc.WriteTo(p, conn.remote); err == nil && n == len(p) {
+						smu.Lock()
+						sent = append(sent, p)
+						smu.Unlock()
+					}
+				}
+			}(w)
+		}
+		wg.Wait()
+		intruded := false
+		if !started.CompareAndSwap(false, true) { // (a successful swap disarms a hook that has not fired: with a write buffer the socket writes are asynchronous)
+			select {
+			case err := <-intruderDone:
+				intruded = err == nil
+			case <-time.After(20 * time.Second):
+				st.Inconclusive()
+				rt.Fatalf("VERIF-INCONCLUSIVE: the second WriteTo did not return within 20 s")
+			}
+		}
+		sentinel := []byte("\x00sentinel\x00")
+		if _, err := pc.WriteTo(sentinel, conn.remote); err != nil {
+			rt.Fatalf("harness: sentinel: %v", err)
+		}
+		for d := time.Now().Add(20 * time.Second); !bytes.HasSuffix(conn.writtenBytes(), sentinel); {
+			if time.Now().After(d) {
+				st.Inconclusive()
+				fr, rs := c14ParseFrames(conn.writtenBytes())
+				rt.Fatalf("VERIF-INCONCLUSIVE: sentinel not on the wire after 20 s (frames %q rest %d started=%v between=%v)", fr, len(rs), started.Load(), between)
+			}
+			time.Sleep(50 * time.Microsecond)
+		}
+		frames, rest := c14ParseFrames(conn.writtenBytes())
+		want := map[string]int{string(sentinel): 1}
+		for _, p := range sent {
+			want[string(p)]++
+		}
+		if intruded {
+			want[string(intruder)]++
+		}
+		ok := len(rest) == 0
+		for _, f := range frames {
+			want[string(f)]--
+		}
+		for _, v := range want {
+			if v != 0 {
+				ok = false
+			}
+		}
+		st.Record(vfHash(nWriters, per, writeBuf, intrudeAt, len(intruder)), between || nWriters >= 2, fmt.Sprintf("write-in-between:%v", between), fmt.Sprintf("writers:%d", nWriters))
+		if between && st.WantSample() {
+			st.Sample(func() string {
+				return fmt.Sprintf("%d writers × %d packets, writeBuffer=%d, a second WriteTo ran after Write call %d on the connection", nWriters, per, writeBuf, intrudeAt)
+			})
+		}
+		if !ok {
+			lens := []int{}
+			for _, f := range frames {
+				lens = append(lens, len(f))
+			}
+			st.Fail(rt, "C14/concurrent-writers/stream-not-whole-frames", "the wire is not one whole frame per packet: parsed frame lengths %v, %d stray bytes; %d packets accepted, intruded=%v (after Write call %d), writeBuffer=%d",
+				lens, len(rest), len(sent), intruded, intrudeAt, writeBuf)
 		}
 	})
 }
